@@ -482,7 +482,7 @@ fn output_selector(
                 "{{ \"id\": {}, \"type\": \"Dataset\" }}",
                 json_str(&into_iri(
                     dataset.id().expect("dataset must have ID"),
-                    &config.default_resource_iri
+                    &config.default_set_iri
                 )),
             );
         }
